@@ -392,6 +392,7 @@ func verifC04(c *drv.Ctx) {
 		"each constructed iterator's full state (P,G',I,startI,limit,stop,aliasing) is read back, each distinct state is run to exhaustion against a bitmap, equal states are merged; "+
 		"(b) ENUMERATED: for table rows with P <= %s the whole orbit of G in Z/P with native arithmetic and a bitmap (P-1 distinct states back to 1 <=> P prime and G a generator), gcd(N,P-1)=1, table shape, rejection of n<=0 and n>=2^32+61 by the real constructor; "+
 		"(c) ENUMERATED: rows with P <= %s, n in {P_(k-1), 2^k, P_k-1} x draw pairs from {0, 2^63-1, 3 fixed} (all 25 pairs for P < 2^17; the 5 pairs (0,0),(max,max),3 fixed for P < 2^28; for rows 29-32 (0,0),(max,max) and one fixed pair at n=2^k), real iterator run to exhaustion against a bitmap. "+
+		"(d) ENUMERATED: every row (all 32, also in the quick tier), n in {P_(k-1), 2^k, P_k-1} x 3 draw pairs: the first 65536 values of the real iterator compared one by one with a walk x <- x*G' mod P in native 128-bit arithmetic started from the constructed state (catches arithmetic that is only wrong for large moduli); "+
 		"NOT ENUMERATED, RESTS ON A LEMMA: for n above the (a) bound the claim over all 2^126 draw pairs follows from (b) + 'G generates a cyclic group of order m and gcd(e,m)=1 => G^e generates it' + the control flow of Next exercised in (a); the lemma is trusted. "+
 		"distinct/non-trivial case = a post-construction iterator state not seen before for the same n (a), a table row (b), an (n,draws) run (c)",
 		aRows, rows[aRows-1].P-1, c04pname(bMaxP), c04pname(cMaxP))
@@ -464,6 +465,18 @@ func verifC04(c *drv.Ctx) {
 			}
 		}
 	}
+	// (d) every row, quick tier too: the first 2^16 steps of the real iterator against a walk in native
+	// 128-bit arithmetic (the large groups are where a multiplication can overflow a machine word)
+	for i := range rows {
+		if !unit[i] {
+			continue
+		}
+		for _, n := range c04boundaryNs(rows, i) {
+			for j, r1 := range []uint64{0, c04max, c04fixed[0]} {
+				units = append(units, c04unit{sec: 'd', row: i, n: n, r1: r1, r2: []uint64{0, c04max, c04fixed[1]}[j], cost: 4e5})
+			}
+		}
+	}
 	c04assign(units, c.NShard)
 
 	var bm []uint64
@@ -505,6 +518,8 @@ func verifC04(c *drv.Ctx) {
 				c04partB(c, rows[u.row], need(rows[u.row].P), fail)
 			case 'c':
 				c04partC(c, rows, u, need(uint64(u.n)+1), fail)
+			case 'd':
+				c04partD(c, rows, u, fail)
 			}
 			defer0()
 		}
@@ -758,4 +773,71 @@ func c04partC(c *drv.Ctx, rows []c04row, u *c04unit, bm []uint64, fail func(byte
 	if keep > 0 {
 		c.Sample(map[string]any{"section": "c", "n": n, "draw1": u.r1, "draw2": u.r2, "P": r.P, "effective_generator": st.G, "first_value": st.S, "first_values": run.first, "values_yielded": run.yielded})
 	}
+}
+
+// c04partD: stepwise conformance of Next with the group walk, for a bounded number of steps.
+func c04partD(c *drv.Ctx, rows []c04row, u *c04unit, fail func(byte, int, string, string, any)) {
+	r := rows[u.row]
+	n := u.n
+	c.Eval(1)
+	key := fmt.Sprintf("d:row%d:n=%d:r1=%d:r2=%d", r.K, n, u.r1, u.r2)
+	rep := map[string]any{"part": "c04", "section": "d", "n": n, "draw1": u.r1, "draw2": u.r2, "row": r.K, "P": r.P, "G": r.G, "N": r.N}
+	it, err, pan := c04new(n, u.r1, u.r2)
+	if pan != nil || err != nil || it == nil {
+		fail('d', u.row, key, fmt.Sprintf("newRangeIterator(%d) with draws (%d,%d): err=%v panic=%v; a size in 1..2^32+60 must iterate", n, u.r1, u.r2, err, pan), rep)
+		return
+	}
+	st := c04stateOf(it)
+	if st.Flags&31 != 0 || st.P != r.P || st.G == 0 || st.G >= st.P || st.I == 0 || st.I >= st.P {
+		fail('d', u.row, key, fmt.Sprintf("n=%d draws=(%d,%d): constructed state P=%d G'=%d I=%d is not a walk in (Z/%d)*", n, u.r1, u.r2, st.P, st.G, st.I, r.P), rep)
+		return
+	}
+	c.Nontrivial(1)
+	x := st.I
+	steps := int64(0)
+	bad := ""
+	func() {
+		defer func() {
+			if p := recover(); p != nil {
+				bad = fmt.Sprintf("panic after %d values: %v", steps, p)
+			}
+		}()
+		for steps < 65536 {
+			v := it.Int()
+			if v == nil || !v.IsUint64() || v.Uint64() != x {
+				bad = fmt.Sprintf("value #%d is %v, the walk x*G' mod P from the constructed state gives %d", steps+1, v, x)
+				return
+			}
+			steps++
+			// reference: next element of the walk that is <= n, or the end when the walk is back at the start
+			y := x
+			for {
+				y = c04mulmod(y, st.G, st.P)
+				if y <= uint64(n) {
+					break
+				}
+			}
+			more := it.Next()
+			if y == st.S {
+				if more {
+					bad = fmt.Sprintf("after %d values the walk is back at its first value %d but Next returned true (value %v)", steps, st.S, it.Int())
+				}
+				return
+			}
+			if !more {
+				bad = fmt.Sprintf("Next returned false after %d values, the walk continues with %d", steps, y)
+				return
+			}
+			x = y
+		}
+	}()
+	c.R.States += steps
+	c.R.Transitions += steps
+	c.Add("d_values_compared", steps)
+	if bad != "" {
+		fail('d', u.row, key, fmt.Sprintf("n=%d draws=(%d,%d) [row %d: P=%d G=%d N=%d; effective generator %d, start %d]: %s", n, u.r1, u.r2, r.K, r.P, r.G, r.N, st.G, st.S, bad), rep)
+		c.Outcome("d:diverged")
+		return
+	}
+	c.Outcome("d:conforms")
 }
